@@ -34,19 +34,30 @@ pub struct CfbOpts {
     pub min_fat_sectors: usize,
     /// byte used for padding (sector tails, free sectors)
     pub fill: u8,
+    /// fill the rest of the 64-byte name field of every used directory entry, AFTER the UTF-16 NUL terminator,
+    /// with stale non-zero code units (what a recycled directory entry leaves behind: the tail of a longer
+    /// earlier name). MS-CFB makes the name-length field (kept exact here) authoritative and does not
+    /// constrain the bytes behind the terminator. calamine's `Directory::from_slice` ignores the length field
+    /// and cuts the decoded name at the FIRST NUL, so the garbage must — and here always does — come after a
+    /// NUL. Names of 31 units leave no room (terminator only). The container layout is not affected by this
+    /// knob (the garbage is drawn from a side generator).
+    pub name_garbage: bool,
 }
 
 impl Default for CfbOpts {
     fn default() -> CfbOpts {
-        CfbOpts { sector_size: 512, shuffle: false, mini_shuffle: false, extra_free: 0, unused_dirs: 0, dir_shuffle: false, min_fat_sectors: 0, fill: 0 }
+        CfbOpts { sector_size: 512, shuffle: false, mini_shuffle: false, extra_free: 0, unused_dirs: 0, dir_shuffle: false, min_fat_sectors: 0, fill: 0, name_garbage: false }
     }
 }
 
 impl CfbOpts {
     /// every knob random; DIFAT sectors in about one file out of eight
     pub fn random(rng: &mut Rng) -> CfbOpts {
+        // drawn from a copy of the state: the caller's random stream is the same as before this knob existed
+        let name_garbage = Rng(rng.0 ^ 0x6E61_6D65_5F67_6172).chance(1, 3);
         let v4 = rng.chance(1, 3);
         CfbOpts {
+            name_garbage,
             sector_size: if v4 { 4096 } else { 512 },
             shuffle: rng.chance(3, 4),
             mini_shuffle: rng.chance(3, 4),
@@ -80,6 +91,36 @@ pub fn dir_entry(name: &str, typ: u8, start: u32, size: u64) -> Vec<u8> {
     e.extend_from_slice(&size.to_le_bytes());
     debug_assert_eq!(e.len(), 128);
     e
+}
+
+/// `dir_entry` with the name field's padding (behind the terminating NUL) overwritten by `tail` (as many
+/// units as fit); the name-length field still says `(units + 1) * 2`
+pub fn dir_entry_with_tail(name: &str, typ: u8, start: u32, size: u64, tail: &[u16]) -> Vec<u8> {
+    let mut e = dir_entry(name, typ, start, size);
+    let used = (name.encode_utf16().count() + 1) * 2;
+    for (k, u) in tail.iter().enumerate() {
+        let o = used + 2 * k;
+        if o + 2 > 64 {
+            break;
+        }
+        e[o..o + 2].copy_from_slice(&u.to_le_bytes());
+    }
+    e
+}
+
+/// stale code units for the padding of a name field: mostly the tail of a plausible earlier name, sometimes
+/// arbitrary non-zero units (surrogate halves included), sometimes with a NUL in between; never all zero
+pub fn name_tail(rng: &mut Rng) -> Vec<u16> {
+    let mut t: Vec<u16> = match rng.below(3) {
+        0 => "taSpaceMapInfoTransformPrimaryStrongEncryption".encode_utf16().skip(rng.below(20) as usize).collect(),
+        1 => (0..32).map(|_| rng.range(1, 0xFFFF) as u16).collect(),
+        _ => (0..32).map(|_| if rng.chance(1, 5) { 0 } else { rng.range(0x20, 0x7E) as u16 }).collect(),
+    };
+    t.resize(32, 0x78);
+    if t[0] == 0 {
+        t[0] = 0x58;
+    }
+    t
 }
 
 pub fn unused_dir_entry() -> Vec<u8> {
@@ -203,9 +244,18 @@ pub fn write_cfb(streams: &[(String, Vec<u8>)], opts: &CfbOpts, rng: &mut Rng) -
     // --- directory
     let start = |tag: i64| *start_of.get(&tag).unwrap_or(&ENDOFCHAIN);
     let mut others: Vec<Vec<u8>> = vec![];
+    let mut side = Rng(rng.0 ^ 0x7461_696C_7461_696C);
+    let mut entry = |name: &str, typ: u8, st: u32, size: u64| -> Vec<u8> {
+        if opts.name_garbage {
+            let tail = name_tail(&mut side);
+            dir_entry_with_tail(name, typ, st, size, &tail)
+        } else {
+            dir_entry(name, typ, st, size)
+        }
+    };
     for (s, (name, d)) in streams.iter().enumerate() {
         let st = if d.len() < 4096 { mini_start[s] } else { start(s as i64) };
-        others.push(dir_entry(name, 2, st, d.len() as u64));
+        others.push(entry(name, 2, st, d.len() as u64));
     }
     for _ in 0..opts.unused_dirs {
         others.push(unused_dir_entry());
@@ -213,7 +263,7 @@ pub fn write_cfb(streams: &[(String, Vec<u8>)], opts: &CfbOpts, rng: &mut Rng) -
     if opts.dir_shuffle {
         rng.shuffle(&mut others);
     }
-    let mut dir = dir_entry("Root Entry", 5, start(-2), mini.len() as u64);
+    let mut dir = entry("Root Entry", 5, start(-2), mini.len() as u64);
     for o in others {
         dir.extend_from_slice(&o);
     }
